@@ -2,7 +2,7 @@
 # MANIFEST.setup_cmd: build the whole Coq development from files on disk (offline).
 set -e
 cd "$(dirname "$0")"
-export PYTHONHASHSEED=0 PYTHONPATH=/verif:/repo/src PYTHONDONTWRITEBYTECODE=1
+export PYTHONHASHSEED=0 PYTHONPATH="$PWD:${VERIF_REPO:-/repo}/src" PYTHONDONTWRITEBYTECODE=1
 /venv/bin/python - <<'PY'
 from harness import core
 ok, log, rep = core.ensure_built()
